@@ -25,28 +25,35 @@ PIdx(k) == LET S == {i \in 1..Len(evs) : PKey(evs[i]) = k} IN
 V(ix, i) == Col(evs[ix[i]], "v")
 DefOf(v) == LET hits == {i \in 1..Len(cfg.defs) : cfg.defs[i].v = v} IN
             IF hits = {} THEN [v |-> v, k |-> "true", c |-> 0] ELSE cfg.defs[CHOOSE i \in hits : TRUE]
-Holds(v, ix, i) ==
+\* running SUM(v) over the match so far (rows st..i, NULL skipped)
+RECURSIVE RunSum(_, _, _)
+RunSum(ix, st, i) == IF i < st THEN 0 ELSE (IF V(ix, i).k = "num" THEN V(ix, i).v ELSE 0) + RunSum(ix, st, i - 1)
+\* DEFINE of variable v on row i of a match that started at row st
+Holds(v, ix, i, st) ==
   LET d == DefOf(v)  x == V(ix, i) IN
   CASE d.k = "true" -> TRUE
+    [] d.k = "sumle" -> RunSum(ix, st, i) <= d.c
+    [] d.k = "cntle" -> (i - st + 1) * Scale <= d.c
     [] d.k = "gt" -> x.k = "num" /\ x.v > d.c
     [] d.k = "lt" -> x.k = "num" /\ x.v < d.c
     [] d.k = "up" -> i > 1 /\ x.k = "num" /\ V(ix, i - 1).k = "num" /\ x.v > V(ix, i - 1).v
     [] d.k = "down" -> i > 1 /\ x.k = "num" /\ V(ix, i - 1).k = "num" /\ x.v < V(ix, i - 1).v
 
 \* Ends(p, ix, i): positions j (exclusive end) such that ix[i..j-1] matches p
-RECURSIVE Ends(_, _, _), SeqEnds(_, _, _, _), Rep(_, _, _, _, _)
-Ends(p, ix, i) ==
-  CASE p.t = "var" -> IF i <= Len(ix) /\ Holds(p.v, ix, i) THEN {i + 1} ELSE {}
-    [] p.t = "seq" -> SeqEnds(p.ps, ix, {i}, 1)
-    [] p.t = "alt" -> UNION {Ends(p.ps[k], ix, i) : k \in 1..Len(p.ps)}
-    [] p.t = "q"   -> Rep(p, ix, {i}, 0, IF p.lo = 0 THEN {i} ELSE {})
-SeqEnds(ps, ix, S, k) == IF k > Len(ps) THEN S ELSE SeqEnds(ps, ix, UNION {Ends(ps[k], ix, x) : x \in S}, k + 1)
+\* (st = first row of the match: DEFINE conditions with running aggregates depend on it)
+RECURSIVE Ends(_, _, _, _), SeqEnds(_, _, _, _, _), Rep(_, _, _, _, _, _)
+Ends(p, ix, i, st) ==
+  CASE p.t = "var" -> IF i <= Len(ix) /\ Holds(p.v, ix, i, st) THEN {i + 1} ELSE {}
+    [] p.t = "seq" -> SeqEnds(p.ps, ix, {i}, 1, st)
+    [] p.t = "alt" -> UNION {Ends(p.ps[k], ix, i, st) : k \in 1..Len(p.ps)}
+    [] p.t = "q"   -> Rep(p, ix, {i}, 0, IF p.lo = 0 THEN {i} ELSE {}, st)
+SeqEnds(ps, ix, S, k, st) == IF k > Len(ps) THEN S ELSE SeqEnds(ps, ix, UNION {Ends(ps[k], ix, x, st) : x \in S}, k + 1, st)
 \* c repetitions done, reaching positions S; acc = ends collected for counts within [lo, hi]
-Rep(p, ix, S, c, acc) ==
+Rep(p, ix, S, c, acc, st) ==
   IF S = {} \/ (p.hi # -1 /\ c >= p.hi) \/ c > Len(ix) THEN acc
-  ELSE LET S1 == UNION {{y \in Ends(p.p, ix, x) : y > x} : x \in S} IN      \* progress required: no empty iterations
-       Rep(p, ix, S1, c + 1, IF c + 1 >= p.lo THEN acc \cup S1 ELSE acc)
-Longest(ix, i) == LET E == {j \in Ends(cfg.pat, ix, i) : j > i} IN IF E = {} THEN 0 ELSE CHOOSE j \in E : \A k \in E : k <= j
+  ELSE LET S1 == UNION {{y \in Ends(p.p, ix, x, st) : y > x} : x \in S} IN      \* progress required: no empty iterations
+       Rep(p, ix, S1, c + 1, IF c + 1 >= p.lo THEN acc \cup S1 ELSE acc, st)
+Longest(ix, i) == LET E == {j \in Ends(cfg.pat, ix, i, i) : j > i} IN IF E = {} THEN 0 ELSE CHOOSE j \in E : \A k \in E : k <= j
 
 \* left-to-right scan with the AFTER MATCH SKIP rule: sequence of <<first, last>> (positions in the partition)
 RECURSIVE Scan(_, _)
